@@ -290,7 +290,8 @@ def gen(S, tier):
                 toks = list(p)
             else:
                 toks = p + tail + [w.pick(["-q", "-vv", "--no-ansi", "--ansi", "-n", "-vvv"])]
-            lines.append([k, toks])
+            # each run has its own streams: whether they are a terminal varies from run to run
+            lines.append([k, toks, w.chance(0.5)])
         return {"class": "app", "cfg": cfg, "app": spec, "scripts": scripts, "lines": lines, "ops": [], "renders": []}
     if cls == "style":
         ops = []
@@ -350,10 +351,11 @@ def simplify(sc):
             keep = [c for c in spec["commands"] if c["name"] in used]
             if keep and len(keep) < len(spec["commands"]):
                 yield dict(sc, app=dict(spec, commands=keep))
-        for i, (k, toks) in enumerate(sc["lines"]):
+        for i, line in enumerate(sc["lines"]):
+            k, toks = line[0], line[1]
             for j in range(len(toks)):
                 if toks[j].startswith("-") or j >= 2:
-                    yield dict(sc, lines=sc["lines"][:i] + [[k, toks[:j] + toks[j + 1:]]] + sc["lines"][i + 1:])
+                    yield dict(sc, lines=sc["lines"][:i] + [[k, toks[:j] + toks[j + 1:]] + line[2:]] + sc["lines"][i + 1:])
     if sc["class"] == "style":
         rows = sc["rows"]
         if len(rows) > 1:
@@ -423,11 +425,13 @@ def _exec_app(sc, res):
         res.probe("lenient_command")
     hist = []  # (kind, failed)
     HELP = ("help_cmd", "help_path", "path_help", "dash_h")
-    for i, (kind, toks) in enumerate(sc["lines"]):
+    for i, line in enumerate(sc["lines"]):
+        kind, toks = line[0], line[1]
+        lcfg = dict(cfg, ansi=line[2]) if len(line) > 2 else cfg
         res.steps += 1
         toks_before = list(toks)
-        got = run_line(app, inv, toks, cfg)
-        want = zygote.reference(ME, "ref_run_line", spec, scripts, toks_before, cfg)
+        got = run_line(app, inv, toks, lcfg)
+        want = zygote.reference(ME, "ref_run_line", spec, scripts, toks_before, lcfg)
         res.events.append((i, kind, digest(got)))
         if list(toks) != toks_before:
             res.violate("input_mutated", "tokens", "the caller's token list changed from %r to %r" % (toks_before, toks))
